@@ -209,7 +209,7 @@ def shrink_isolated(prop, tape, seed, tier, kf, clause, budget_s) -> list[int]:
 # ----------------------------------------------------------------------- evidence
 def write_evidence(prop: str, mach: Any, tier: str, verif_seed: int, agg: dict, wall: float,
                    violations: int, extra: dict) -> str:
-    path = os.path.join(VERIF, "evidence", f"{prop}.json")
+    path = os.path.join(os.environ.get("VERIF_EVIDENCE_DIR") or os.path.join(VERIF, "evidence"), f"{prop}.json")
     os.makedirs(os.path.dirname(path), exist_ok=True)
     runs = agg["runs"]
     cov = {
@@ -382,8 +382,9 @@ def report_violation(prop: str, mach: Any, tier: str, verif_seed: int, v: dict, 
     if not final.get("violation") or final["violation"]["clause"] != clause:
         small = v["tape"]
         final = fresh
-    os.makedirs(os.path.join(VERIF, "replays"), exist_ok=True)
-    path = os.path.join(VERIF, "replays", f"{prop}-{v['seed']}-{final['digest'][:8]}.json")
+    rdir = os.environ.get("VERIF_REPLAY_DIR") or os.path.join(VERIF, "replays")
+    os.makedirs(rdir, exist_ok=True)
+    path = os.path.join(rdir, f"{prop}-{v['seed']}-{final['digest'][:8]}.json")
     with open(path, "w") as f:
         json.dump({
             "property": prop, "verif_seed": verif_seed, "run_index": v["index"], "seed": v["seed"], "tier": tier,
